@@ -294,6 +294,113 @@ func genC03(r *vh.Runner) {
 			c.Bubble(func() { writersRun(r, c, i) })
 		})
 	}
+	nl := r.Pick(32, 600)
+	for i := 0; i < nl; i++ {
+		r.Case(fmt.Sprintf("long-replay/%d", i), map[string]any{"rep": i}, func(c *vh.Case) {
+			c.Bubble(func() { replayRun(r, c, i) })
+		})
+	}
+}
+
+// replayRun: a long exchange on a faithful network whose datagrams are all
+// recorded; recorded datagrams are delivered again at chosen distances behind
+// the newest counter (inside the current 64-counter block, across one and
+// several block boundaries, at the edge of and beyond the 448-counter window),
+// from the genuine and from a third address, while the exchange goes on.
+func replayRun(r *vh.Runner, c *vh.Case, i int) {
+	rng := vh.NewRand(r.Seed, "c03-replay", i)
+	w, sessions, ok := setup(r, c, rng, 1)
+	if !ok {
+		teardown(w, sessions)
+		return
+	}
+	defer teardown(w, sessions)
+	s := sessions[0]
+	m := &monitor{seed: r.Seed, written: map[msgID]int{}, seen: map[msgID]int{}, c: c, r: r, phase: "long-replay"}
+	var rmu sync.Mutex
+	var rec [2][]simnet.Delivery // per direction, in wire order
+	w.Net.SetPolicy(func(d *simnet.Datagram) []simnet.Delivery {
+		dl := simnet.Delivery{Data: append([]byte(nil), d.Data...), Src: d.Src, Dst: d.Dst, Tag: "genuine"}
+		if len(d.Data) >= 16 && d.Data[0] == 0x10 {
+			dir := 1
+			if sameUDP(d.Dst, w.SrvAddr) {
+				dir = 0
+			}
+			rmu.Lock()
+			rec[dir] = append(rec[dir], dl)
+			rmu.Unlock()
+		}
+		return []simnet.Delivery{dl}
+	})
+	total := rng.Pick(70, 130, 200, 520)
+	if r.Thorough() && rng.Chance(0.3) {
+		total = rng.Pick(700, 1100)
+	}
+	seq := uint32(0)
+	replays := 0
+	replaySome := func() {
+		rmu.Lock()
+		defer rmu.Unlock()
+		for dir := 0; dir < 2; dir++ {
+			n := len(rec[dir])
+			if n == 0 {
+				continue
+			}
+			for k := 0; k < 6; k++ {
+				back := rng.Pick(0, 1, 2, 31, 62, 63, 64, 65, 66, 127, 128, 129, 191, 192, 193, 255, 256, 300, 383, 384, 446, 447, 448, 449, 450, 511, 512, 513, 600, rng.Intn(n))
+				if back >= n {
+					back = n - 1
+				}
+				dl := rec[dir][n-1-back]
+				dl.Tag = fmt.Sprintf("replay-%d-behind", back)
+				if rng.Chance(0.25) {
+					dl.Src = simnet.Addr(61000+rng.Intn(500), 2000+rng.Intn(50000))
+				}
+				if rng.Chance(0.2) {
+					dl.Delay = time.Duration(rng.Intn(30)) * time.Millisecond
+				}
+				w.Net.Inject(dl)
+				replays++
+			}
+		}
+	}
+	for sent := 0; sent < total && !c.Violated(); {
+		k := min(1+rng.Intn(8), total-sent)
+		for j := 0; j < k; j++ {
+			for _, dir := range []byte{dirC2S, dirS2C} {
+				wr, _ := s.end(dir)
+				seq++
+				id := msgID{s.idx, dir, 0, seq}
+				n := hdrLen + rng.Pick(0, 1, 40)
+				m.wrote(id, n)
+				if err := wr.WriteMsg(build(r.Seed, id, n)); err != nil {
+					c.Violate("C03:write-fails-on-live-session:long-replay", map[string]any{"id": id.String(), "err": err.Error()})
+					return
+				}
+			}
+		}
+		sent += k
+		bub.Settle(5 * time.Millisecond)
+		if rng.Chance(0.35) {
+			replaySome()
+			bub.Settle(40 * time.Millisecond)
+		}
+		drain(m, sessions, time.Millisecond)
+	}
+	replaySome()
+	bub.Settle(60 * time.Millisecond)
+	drain(m, sessions, 5*time.Millisecond)
+	r.Count("messages_written", int64(seq))
+	r.Count("recorded_datagrams_replayed", int64(replays))
+	r.Count("evaluations", int64(seq)+int64(replays))
+	if c.Violated() {
+		return
+	}
+	if miss := m.missing(func(msgID) bool { return true }); len(miss) > 0 {
+		c.Violate("C03:message-lost-on-faithful-network:long-replay", map[string]any{"missing": miss[:min(len(miss), 8)], "n_missing": len(miss), "replays": replays})
+		return
+	}
+	r.Nontrivial(fmt.Sprintf("long-replay|%d|%d", i, total))
 }
 
 // scheduleRun: faithful phase, additive-hostile phase (genuine packets all
